@@ -182,6 +182,17 @@ def utils_batch(case):
         else:
             if not ok or len(calls) != 1 or calls[0] != float(ms) / 1000.0:
                 problems.append(("sleep", f"sleep({ms!r}) -> sleep_func calls {calls}, expected exactly [{float(ms) / 1000.0}]"))
+        # a call WITHOUT sleep_func right after an injected one waits on the real clock (time.sleep), not on the earlier callable
+        import time as _time
+        real, seen = _time.sleep, []
+        _time.sleep = lambda sec: seen.append(sec)
+        try:
+            n_before = len(calls)
+            U.sleep(2)
+        finally:
+            _time.sleep = real
+        if seen != [0.002] or len(calls) != n_before:
+            problems.append(("sleep-default-clock", f"sleep(2) after a call with an injected sleep_func: time.sleep calls {seen}, the earlier callable got {calls[n_before:]}"))
     return {"problems": problems[:4], "ops": checked, "log": samples}
 
 
@@ -319,6 +330,8 @@ def sensors_batch(case):
                 mon = SerM.SerialMonitor(r.choice([9600, 115200, 1]), port=r.choice(["COM4", "/dev/ttyUSB0"]), **({"newline": nl} if nl != "\n" or r.random() < 0.3 else {}))
                 vals = [r.choice(["hello", "", "ünï ✓ 端", 0, -5, 3.14, 1e20, True, None, Weird(), [1, 2], "a\nb", 0.1 + 0.2, b"x", "done\n", "\n", "x\r\n", "tail ", " lead", "\t"])
                         for _ in range(r.randint(1, 6))]
+                # values that compare (and hash) equal but print differently, one after the other
+                vals += r.choice([[1, True, 1.0], [0, False, 0.0, -0.0], [2, 2.0], ["1", 1], [True, 1]])
                 for v in vals:
                     if r.random() < 0.15:
                         # the line ending is a public attribute: a write uses the value it has at that moment
@@ -330,7 +343,7 @@ def sensors_batch(case):
                     port = fake.ports[-1]
                     if ret != want or not port.written or port.written[-1] != (want + nl).encode("utf-8"):
                         problems.append(("serial-write", f"write({v!r}) returned {ret!r} and sent {port.written[-1:]!r}; expected {want!r} + newline {nl!r}"))
-                if len(fake.ports[-1].written) != len(vals):
+                if len(port.written) != len(vals):
                     problems.append(("serial-write-count", f"{len(vals)} writes produced {len(fake.ports[-1].written)} payloads"))
                 mon.close()
                 if fake.ports[-1].is_open:
